@@ -5,10 +5,13 @@ use crate::simnet::{TraceCfg, WorldSpec};
 use serde::{Deserialize, Serialize};
 
 pub mod c01;
+pub mod c02;
 pub mod c03;
 pub mod c06;
 pub mod c08;
 pub mod c10;
+pub mod c11;
+pub mod c19;
 pub mod e2e;
 
 #[derive(Clone, Debug, Serialize, Deserialize)]
@@ -25,7 +28,7 @@ pub fn sim_case(opts: &crate::simnet::gen::GenOpts) -> proptest::strategy::Boxed
 }
 
 pub fn all() -> Vec<PropertyCheck> {
-    vec![c01::check(), c03::check(), c06::check(), c08::check(), c10::check()]
+    vec![c01::check(), c02::check(), c03::check(), c06::check(), c08::check(), c10::check(), c11::check(), c19::check()]
 }
 
 pub fn by_id(id: &str) -> Option<PropertyCheck> {
